@@ -9,6 +9,7 @@ import (
 	"os"
 	"path/filepath"
 	"regexp"
+	"runtime/pprof"
 	"sort"
 	"strconv"
 	"strings"
@@ -65,7 +66,13 @@ func main() {
 	noReplay := flag.Bool("noreplay", false, "do not run native replays")
 	flag.StringVar(&repoDir, "repo", "/repo", "repository root")
 	flag.StringVar(&verifDir, "verif", "/verif", "verif root")
+	cpuprof := flag.String("cpuprofile", "", "write cpu profile")
 	flag.Parse()
+	if *cpuprof != "" {
+		f, _ := os.Create(*cpuprof)
+		pprof.StartCPUProfile(f)
+		defer pprof.StopCPUProfile()
+	}
 	start := time.Now()
 	seed, _ := strconv.ParseInt(os.Getenv("VERIF_SEED"), 10, 64)
 	runSeed = seed
@@ -75,7 +82,7 @@ func main() {
 			fmt.Println("MACHINERY-ERROR replay:", err)
 			os.Exit(2)
 		}
-		rr := replayNative(cx, *replayPath)
+		rr := replayNative(cx, *replayPath, 0)
 		fmt.Printf("replay %s: %s %s\n", *replayPath, rr.Status, rr.Detail)
 		if rr.Status == "reproduced" {
 			fmt.Printf("VIOLATION property=%s replay=%s\n", cx.Property, *replayPath)
@@ -306,19 +313,22 @@ func main() {
 					path := filepath.Join(outDir, fmt.Sprintf("cex_%d.json", cexN))
 					cx := writeCex(path, *prop, r, ob)
 					note := ""
-					if !*noReplay && !cx.Abstract {
-						rr := replayNative(cx, path)
+					if !*noReplay {
+						// exact replay first; for abstract models (contract outputs / loop-cut states chosen by the
+						// solver) the real code runs on the model's inputs, then a native search anchored at them
+						search := 0
+						if cx.Abstract {
+							search = nativeSearch
+						}
+						rr := replayNative(cx, path, search)
 						note = " replay=" + rr.Status
-						if rr.Status == "not-reproduced" || rr.Status == "error" {
-							// the model does not reproduce against the compiled real code: the encoding is suspect, not the code
+						if rr.Status != "reproduced" {
 							nRef--
 							nInc++
 							inconcl = append(inconcl, fmt.Sprintf("obligation=%q reason=counterexample %s natively (%s)", full, rr.Status, rr.Detail))
 							break
 						}
 						nReplayed++
-					} else if cx.Abstract {
-						note = " replay=abstract-model(contract/stub outputs are solver-chosen; not natively replayable)"
 					}
 					violations = append(violations, fmt.Sprintf("VIOLATION property=%s replay=%s obligation=%q backend=%s%s", *prop, path, full, ob.Solver, note))
 				}
@@ -414,6 +424,7 @@ func main() {
 		b, _ := json.MarshalIndent(ev, "", " ")
 		writeFile(filepath.Join(verifDir, "evidence", *prop+".json"), string(b)+"\n")
 	}
+	pprof.StopCPUProfile()
 	switch {
 	case len(violations) > 0:
 		os.Exit(1)
